@@ -5373,13 +5373,16 @@ class DfaCompileCtx:
                 visited = set()
                 def continues_at(transition):
                     # Where does control continue, without consuming anything, after taking this transition?
+                    conditional_breaks = []
                     for x in transition.actions:
                         if x.get_target_override_mode() == ActionOverrideMode.ALWAYS_GOTO_UNDEFINED:
-                            return []
+                            return conditional_breaks
                         elif x.get_target_override_mode() == ActionOverrideMode.ALWAYS_GOTO_OTHER:
                             # e.g. a break: the loop's end state takes over
-                            return x.get_target_override_targets()[:1]
-                    return [transition.target]
+                            return conditional_breaks + x.get_target_override_targets()[:1]
+                        # a break inside an action-only if: control continues either at the end of that loop or normally
+                        conditional_breaks.extend(sub.refers_to.end_state for sub in x.all_subactions() if isinstance(sub, BreakAction))
+                    return conditional_breaks + [transition.target]
 
                 def aux(x):
                     if isinstance(x, DFConditionPoint):
